@@ -131,6 +131,38 @@ def classify_exception(exc):
     return innermost_repo, tb
 
 
+class debug_logging(object):
+    """the library's loggers at DEBUG for the duration; what they print is discarded"""
+
+    def __enter__(self):
+        import logging
+        self.lg = logging.getLogger("yowsup")
+        self.saved = (self.lg.level, self.lg.propagate, list(self.lg.handlers))
+        for h in list(self.lg.handlers):
+            self.lg.removeHandler(h)
+        self.handler = logging.NullHandler()
+        self.lg.addHandler(self.handler)
+        self.lg.propagate = False
+        self.lg.setLevel(logging.DEBUG)
+        return self
+
+    def __exit__(self, *a):
+        self.lg.removeHandler(self.handler)
+        self.lg.setLevel(self.saved[0])
+        self.lg.propagate = self.saved[1]
+        for h in self.saved[2]:
+            self.lg.addHandler(h)
+        return False
+
+
+def run_marked(mod, case):
+    """run_case, honouring the marker of a case that fails only with debug logging on"""
+    if isinstance(case, dict) and case.get("_debug_logging"):
+        with debug_logging():
+            return mod.run_case({k: v for k, v in case.items() if k != "_debug_logging"})
+    return mod.run_case(case)
+
+
 class Stats(object):
     def __init__(self):
         self.evaluations = 0
@@ -164,6 +196,12 @@ class PropertyViolated(Exception):
 
 def _make_body(worker, name, last):
     def body(case):
+        # Hypothesis always starts a run with the simplest value of the strategy, whatever the seed: sixteen shards would spend
+        # their first example each on the same case (and a strategy with one example per shard would see nothing else).  Only
+        # shard 0 evaluates it; the other shards are given one example more instead (run_strategies) and skip it here.
+        last["calls"] = last.get("calls", 0) + 1
+        if last["calls"] == 1 and worker.shard != 0:
+            return
         if time.time() > worker.t_end and "fail" not in last:
             worker.stats.skipped_budget += 1
             return
@@ -190,9 +228,32 @@ class Worker(object):
 
     # -- one evaluation ------------------------------------------------------------------------
     def evaluate(self, case, source, distinct_by_construction=False):
+        new = self._evaluate(case, source, distinct_by_construction)
+        # the logging configuration is part of no property's domain and must not matter to any of them: one case in six (chosen by
+        # its digest; every case once a difference has shown up) is evaluated a second time with the library's loggers at DEBUG -
+        # what `yowsup-cli -d` and an application being debugged run with.  A case that fails only then carries "_debug_logging".
+        if not new and isinstance(case, dict) and not case.get("_debug_logging") and getattr(self.mod, "DEBUG_LOGGING_PASS", True) \
+                and (self.debug_all or digest(case) % 6 == 0):
+            marked = dict(case, _debug_logging=True)
+            keep = (self.stats.evaluations, dict(self.stats.by_source))
+            new = self._evaluate(marked, source, distinct_by_construction, count=False)
+            if new:
+                self.debug_all = True
+                case["_debug_logging"] = True
+                self.stats.labels["fails_only_with_debug_logging"] += 1
+            self.stats.labels["also_evaluated_with_debug_logging"] += 1
+        return new
+
+    debug_all = False
+
+    def _evaluate(self, case, source, distinct_by_construction=False, count=True):
         mod = self.mod
         try:
-            out = mod.run_case(case)
+            if isinstance(case, dict) and case.get("_debug_logging"):
+                with debug_logging():
+                    out = mod.run_case({k: v for k, v in case.items() if k != "_debug_logging"})
+            else:
+                out = mod.run_case(case)
         except HarnessError:
             raise
         except Exception as e:  # noqa
@@ -205,6 +266,15 @@ class Worker(object):
                      "unexpected_exception:%s:%s:%s" % (type(e).__name__, os.path.basename(fr.filename), fr.name),
                      {"exception": repr(e), "where": "%s:%s %s" % (fr.filename, fr.lineno, fr.name)})
         st = self.stats
+        if not count:
+            # (the second pass of a case is not another case)
+            new = []
+            for v in out.violations:
+                if v.key in self.open_keys:
+                    st.known_hits[v.key] += 1
+                else:
+                    new.append(v)
+            return new
         st.evaluations += out.evals
         st.by_source[source] += out.evals
         for lb in out.labels:
@@ -287,7 +357,7 @@ class Worker(object):
             worker = self
 
             test = given(strat)(_make_body(worker, name, last))
-            test = settings(max_examples=n, database=None, deadline=None, derandomize=False,
+            test = settings(max_examples=n if self.shard == 0 else n + 1, database=None, deadline=None, derandomize=False,
                             report_multiple_bugs=False, phases=phases, verbosity=Verbosity.quiet,
                             suppress_health_check=[HealthCheck.too_slow, HealthCheck.data_too_large,
                                                    HealthCheck.large_base_example],
@@ -322,7 +392,7 @@ class Worker(object):
                 if time.time() > t_stop:
                     break
                 try:
-                    out = self.mod.run_case(cand)
+                    out = run_marked(self.mod, cand)
                 except Exception:
                     continue
                 new = [v for v in out.violations if v.key not in self.open_keys]
@@ -342,7 +412,7 @@ class Worker(object):
             try:
                 with open(path) as f:
                     rep = json.load(f)
-                out = self.mod.run_case(rep["case"])
+                out = run_marked(self.mod, rep["case"])
                 hit = any(v.key == e["key"] for v in out.violations)
                 other = [v.to_json() for v in out.violations if v.key not in self.open_keys]
             except Exception as ex:  # canary could not run at all: harness problem
@@ -635,7 +705,7 @@ def run_replay(mod, path):
     if hasattr(mod, "init_worker"):
         mod.init_worker(0)
     try:
-        out = mod.run_case(rep["case"])
+        out = run_marked(mod, rep["case"])
         viols = out.violations
     except HarnessError:
         raise
